@@ -137,6 +137,10 @@ func verifAllocDone() {
 
 // verifQuiesce / verifAdvanceClock / verifBlockedInfo only have meaning under the engine's scheduler.
 func verifQuiesce() int         { return 0 }
+
+// verifSettle lets the other goroutines run until they block, without letting timers fire; natively
+// a short sleep stands in for it.
+func verifSettle() int { time.Sleep(30 * time.Millisecond); return 0 }
 func verifAdvanceClock(d int64) { time.Sleep(time.Duration(d)) }
 // verifClock returns the clock in nanoseconds (virtual under the engine).
 func verifClock() int64 { return time.Now().UnixNano() }
